@@ -120,6 +120,41 @@ theorem initStates_uniform_row {km : KModel α} {spec : ParamSpec} {lay : List (
     simp only [hp, bind, Except.bind] at h1
     exact ⟨p, r, rfl, h1, h2⟩
 
+/-- **single_cell_eq for `states = nil`, constant state width.** Let the N-cell `Run` WITHOUT a state array succeed with
+`out`, and let every cell's own initial row have one width. Then for every cell `i < nCells` there are its parameter
+column `p` and `st` with `km.init p = st` — the states `InitialiseStates(1)` builds for the cell ALONE — such that the
+single-cell `Run` on any one-cell parameter array decoding to `p`, the cell's input block, the one row `st` and the cell's
+output rows returns exactly cell `i`'s part of `out`. -/
+theorem single_cell_eq_init_uniform (km : KModel α) (spec : ParamSpec) (x : RunIn α) (hx : x.states = none)
+    (out : RunOut α) (h : run km spec x = .ok out)
+    (lay : List (Nat × Nat)) (hl : layout spec x.params = .ok lay) (rows : List (List α))
+    (hm : (List.range x.nCells).mapM (fun i => do let p ← cellParams spec lay x.params i; km.init p) = .ok rows)
+    (w : Nat) (hw : ∀ r ∈ rows, r.length = w) (i : Nat) (hi : i < x.nCells) :
+    ∃ (p st : List α) (orow blk : List (List α)) (s' : List α) (o' : List (List α)),
+      cellParams spec lay x.params i = .ok p ∧ km.init p = .ok st ∧
+      x.outputs[i]? = some orow ∧ x.inputs[i % x.inputs.length]? = some blk ∧
+      out.states[i]? = some s' ∧ out.outputs[i]? = some o' ∧
+      ∀ (params₁ : List (List α)) (lay₁ : List (Nat × Nat)), layout spec params₁ = .ok lay₁ →
+        cellParams spec lay₁ params₁ 0 = .ok p →
+        run km spec { params := params₁, inputs := [blk], states := some [st], nCells := 1, outputs := [orow] } =
+          .ok { outputs := [o'], states := [s'] } := by
+  obtain ⟨lay', sts, hl', hi', hall⟩ := single_cell_eq_init km spec x hx out h
+  rw [hl] at hl'
+  cases hl'
+  obtain ⟨hu, hrow⟩ := initStates_uniform_row rows hm w hw
+  rw [hu] at hi'
+  cases hi'
+  have hlen : rows.length = x.nCells := by
+    have := (mapM_ok_length _ _ _ hm).1
+    simpa using this
+  obtain ⟨p, st, orow, blk, s', o', g1, g2, g3, g4, g5, g6, g7⟩ := hall i (by rw [hlen]; exact hi)
+  obtain ⟨p', r, k1, k2, k3⟩ := hrow i hi
+  rw [g1] at k1
+  cases k1
+  rw [g2] at k3
+  cases k3
+  exact ⟨p, st, orow, blk, s', o', g1, k2, g3, g4, g5, g6, g7⟩
+
 /-! ### non-vacuity: `RunoffCoefficient` (no states: every initial row is `[]`, width 0) on 2 cells -/
 example (a b : α) :
     initStates (Kernels.Coeff.model (α := α)) [none] [(0, 1)] [[a, b]] 2 = .ok [[], []] :=
